@@ -19,7 +19,7 @@ import jcommon
 def gen(run):
     thorough = run.tier == "thorough"
     cases = []
-    for fam, cap in (("pairs", None), ("headers", 1500), ("amounts", 2500), ("postings", 2500), ("desc-chars", 3000)):
+    for fam, cap in (("pairs", None), ("headers", 1500), ("amounts", 2500), ("postings", 2500), ("desc-chars", 3000), ("lexicon", None)):
         cs = jcommon.family(run, fam)
         if not thorough and cap:
             # sample only the big sub-families; keep every trigger case and every small sub-family whole
